@@ -711,6 +711,24 @@ func (env *SpecEnv) trCall(e *SExpr) Val {
 			env.fail("boxptr: unknown type %s", args[1].S)
 		}
 		return Val{T: fmt.Sprintf("(mkI %d %s)", c.eng.typeTag(types.NewPointer(t)), x.T), S: "Iface"}
+	case "gvar":
+		// gvar("pkgpath.Name"): the (constant) value of a package-level variable, e.g. a sentinel error
+		if args[0].Op != "str" {
+			env.fail("gvar needs a string")
+		}
+		i := strings.LastIndex(args[0].S, ".")
+		if i < 0 {
+			env.fail("gvar: want pkgpath.Name")
+		}
+		p := c.eng.pkgs[args[0].S[:i]]
+		if p == nil || p.Types == nil {
+			env.fail("gvar: package %s not loaded", args[0].S[:i])
+		}
+		o, ok := p.Types.Scope().Lookup(args[0].S[i+1:]).(*types.Var)
+		if !ok {
+			env.fail("gvar: no variable %s", args[0].S)
+		}
+		return c.readVar(env.st, o)
 	case "addr":
 		// addr(x.f): the reference of the struct-valued (embedded or named) field f — what &x.f is in Go
 		cur, t := env.selCursor(args[0])
